@@ -110,7 +110,12 @@ func c08R1(c *Ctx, rule string) {
 		"usedRandomM held exclusively at both, no unlock in between", fmt.Sprintf("test-and-set not atomic: lookup excl=%v insert excl=%v unlock-between=%v lookup-first=%v — two simultaneous presentations can both see 'unused'", okL && el.Excl, okU && eu.Excl, between != nil, !reorder))
 	// same key at both operations
 	c.Check(sameValueOrLoad(lookup.Index, update.Key), rule, "same key looked up and inserted in "+fn, c.at(update), "key "+Expr(update.Key), "lookup key "+Expr(lookup.Index)+" differs from insert key "+Expr(update.Key))
-	// returned value is the lookup's ok
+	// returned value is the lookup's ok — when the test-and-set is a function of its own. Written in line in the
+	// authenticating function there is no such result; what the verdict leads to is R2's subject.
+	if res := a.reg.Signature.Results(); res.Len() != 1 || typeStr(res.At(0).Type()) != "bool" {
+		c.OK(rule, "result of "+fn+" is the lookup's ok", c.atFn(a.reg), "test-and-set written in line: the lookup's ok is branched on directly (see R2)")
+		return
+	}
 	okRet := true
 	for _, r := range returnsOf(a.reg) {
 		v := resultValue(r, 0)
@@ -146,6 +151,53 @@ func c08R2(c *Ctx, rule string) {
 		return
 	}
 	n := 0
+	// the test-and-set written in line in the function that decrypts: the lookup's ok plays the part of the call's result
+	if decCalls := callsIn(a.reg, fnName(dec)); len(decCalls) > 0 {
+		lookup, update := c08MapOps(a)
+		f := a.reg
+		construct := "registration before decryption in " + shortFn(f)
+		if lookup == nil || update == nil {
+			c.Bad(rule, construct, c.atFn(f), "no lookup+insert of the random before decryption")
+			return
+		}
+		verdict := func(at Atom) (seen, ok bool) {
+			if at.Kind == "ok" && at.X == ssa.Value(lookup) {
+				return at.Pol, true
+			}
+			return false, false
+		}
+		ok, why := true, ""
+		for _, d := range decCalls {
+			if !instrDominates(update, d) {
+				ok, why = false, "decryption can run without (or before) registering the random"
+				continue
+			}
+			heeded := false
+			for _, at := range AtomsAt(d) {
+				if seen, isV := verdict(at); isV && !seen {
+					heeded = true
+				}
+			}
+			if !heeded {
+				ok, why = false, "the result of the registration is not tested before decryption"
+			}
+		}
+		c.Check(ok, rule, construct, c.at(update), "the insert dominates decryptClientInfo, which runs only on 'not seen before'", why)
+		errIdx := f.Signature.Results().Len() - 1
+		okErr, found := true, false
+		for _, r := range returnsOf(f) {
+			for _, at := range AtomsAt(r) {
+				if seen, isV := verdict(at); isV && seen {
+					found = true
+					if errIsNilAt(resultValue(r, errIdx), r) != "nonnil" {
+						okErr = false
+					}
+				}
+			}
+		}
+		c.Check(found && okErr, rule, "replay branch of "+shortFn(f)+" returns an error", c.at(lookup), "return under 'seen before' carries a non-nil error", "a repeated random does not lead to an error return")
+		return
+	}
 	for _, cs := range p.CallersOf(a.reg) {
 		f := cs.Parent()
 		if !p.InRepo(f) || strings.HasSuffix(p.Pos(f.Pos()), "_fuzz.go") {
